@@ -217,6 +217,26 @@ def rule_patterns(g: Gen, depth: int = 2) -> list[tuple[str, object]]:
         ("cosNeg", X.Cosine(X.Negation(u()))),
         ("sinNeg", X.Sine(X.Negation(u()))),
     ]
+    # consolidation with two (or three) keys that are each shared: the groups themselves form a collection
+    n2 = n + 1 if m == n else m
+    b3 = [q for q in bases if q != b][0]
+    nu = int(n)
+    n = nu if nu >= 2 else 2
+    n2 = int(n2) if int(n2) != n and int(n2) >= 2 else n + 1
+
+    def u():        # holes that keep their identity through simplification: a variable, lightly wrapped
+        v = X.Variable(r.choice(g.names))
+        return r.choice([v, v, X.Sine(v), X.Add(v, X.Constant(2.0)), X.Cosine(X.Variable(r.choice(g.names)))])
+    out += [
+        ("mulNPows", X.Multiply(*around([X.NthPower(u(), n), X.NthPower(u(), n2), X.NthPower(u(), n),
+                                         X.NthPower(u(), n2), X.NthPower(u(), n2 + 2), X.NthPower(u(), n2 + 2)], 1))),
+        ("mulNRoots", X.Multiply(*around([X.NthRoot(u(), n), X.NthRoot(u(), n2), X.NthRoot(u(), n),
+                                          X.NthRoot(u(), n2)], 1))),
+        ("mulExps", X.Multiply(*around([X.Exponential(u(), base=b), X.Exponential(u(), base=b3),
+                                        X.Exponential(u(), base=b), X.Exponential(u(), base=b3)], 1))),
+        ("addLogs", X.Add(*around([X.Logarithm(u(), base=b), X.Logarithm(u(), base=b3),
+                                   X.Logarithm(u(), base=b), X.Logarithm(u(), base=b3)], 1))),
+    ]
     return out
 
 
